@@ -65,15 +65,20 @@ def ext_path(variant="rel"):
         lock.close()
 
 
-def prune(keep=6):
-    """Keep only the most recent few cached builds (disk hygiene)."""
-    if not os.path.isdir(CACHE):
-        return
-    ds = sorted((os.path.getmtime(os.path.join(CACHE, d)), d)
-                for d in os.listdir(CACHE))
+def prune(keep=12, min_age_s=6 * 3600):
+    """Disk hygiene: drop cached builds beyond the `keep` most recent ones,
+    but never one younger than `min_age_s` (another check may be using it)."""
     import shutil
-    for _, d in ds[:-keep]:
-        shutil.rmtree(os.path.join(CACHE, d), ignore_errors=True)
+    import time
+    try:
+        ds = sorted((os.path.getmtime(os.path.join(CACHE, d)), d)
+                    for d in os.listdir(CACHE))
+    except OSError:
+        return
+    now = time.time()
+    for mtime, d in ds[:-keep]:
+        if now - mtime > min_age_s:
+            shutil.rmtree(os.path.join(CACHE, d), ignore_errors=True)
 
 
 if __name__ == "__main__":
